@@ -910,6 +910,13 @@ impl Real {
                         XmlNode::EntityReference(r) => Some(r.value().unwrap_or_else(|e| format!("<ERR {}>", e))),
                         _ => None,
                     },
+                    prefix: match &n {
+                        XmlNode::Element(e) => match xml_dom::AsExpandedName::as_expanded_name(e) {
+                            Ok(Some((_, Some(p), _))) if p != "xmlns" => Some(p),
+                            _ => None,
+                        },
+                        _ => None,
+                    },
                 };
                 obs.insert(key, o);
                 for c in kids.into_iter().rev() {
